@@ -26,6 +26,9 @@ class Child extends Base {
 class Sib {
   public function sib($o, $w) { SIB }
 }
+class Bro extends Base {
+  public function bro($o, $w) { BRO }
+}
 `
 
 var propNames = []string{"pu", "pr", "pv"}
@@ -64,10 +67,10 @@ var readVals = [][]int{{1, 2, 3}, nil, {11, 12, 13}, {21, 22, 23}, {31, 32, 33},
 // H_visibility: (member kind x modifier) x access site.
 func H_visibility() {
 	kind, m := symx.Choose("kind", 7), symx.Choose("mod", 3)
-	site := symx.Choose("site", 5) // 0 outside, 1 same class, 2 subclass, 3 sibling, 4 closure in global code
+	site := symx.Choose("site", 6) // 0 outside, 1 same class, 2 subclass, 3 unrelated class, 4 closure in global code, 5 another subclass of the same parent acting on a Child instance
 	w := symx.Int("w")
 	src := fixture
-	same, sub, sib := "return 0;", "return 0;", "return 0;"
+	same, sub, sib, bro := "return 0;", "return 0;", "return 0;", "return 0;"
 	main := ""
 	switch site {
 	case 0:
@@ -81,10 +84,13 @@ func H_visibility() {
 	case 3:
 		sib = guarded(access(kind, m, "$o")) + " return 0;"
 		main = "$o = new Base(); $s = new Sib(); $s->sib($o, $w); emit($o->peek(" + string(rune('0'+m)) + "));"
+	case 5:
+		bro = guarded(access(kind, m, "$o")) + " return 0;"
+		main = "$o = new Child(); $s = new Bro(); $s->bro($o, $w); emit($o->peek(" + string(rune('0'+m)) + "));"
 	case 4:
 		main = "$o = new Base(); $f = function() use ($o, $w) { " + guarded(access(kind, m, "$o")) + " return 0; }; $f(); emit($o->peek(" + string(rune('0'+m)) + "));"
 	}
-	src = replace(replace(replace(src, "SAME", same), "SUB", sub), "SIB", sib) + "\n$w = $pw;\n" + main
+	src = replace(replace(replace(replace(src, "SAME", same), "SUB", sub), "SIB", sib), "BRO", bro) + "\n$w = $pw;\n" + main
 	s := sx.Compile(src)
 	symx.Assert(s.Err == nil, "fixture parses")
 	if s.Err != nil {
@@ -92,10 +98,22 @@ func H_visibility() {
 	}
 	_, ctl := s.Run(sx.Bind{Name: "pw", V: sx.Int(w)})
 	allowed := m == 0 || (m == 1 && (site == 1 || site == 2)) || (m == 2 && site == 1)
+	// a protected member reached from another descendant of its class: the statement only bounds
+	// visibility from above ("only from its class and descendants"); either outcome is accepted,
+	// but a denied write must still have no effect
+	either := m == 1 && site == 5
 	tag := "site" + string(rune('0'+site)) + " " + mods[m] + " kind" + string(rune('0'+kind))
 	symx.Assert(ctl == nil, tag+": denied access is a catchable error (script continues)")
 	if ctl != nil {
 		return
+	}
+	if either {
+		if len(sx.Log) == 2 && sx.Log[0].Kind == 'M' && sx.Log[0].I == 66 {
+			symx.Assert(sx.Log[1].Kind == 'i' && sx.Log[1].I == initial[m], tag+": denied access leaves the member unchanged")
+			symx.Reach("end")
+			return
+		}
+		allowed = true
 	}
 	// expected log
 	var want []sx.Obs
@@ -113,7 +131,7 @@ func H_visibility() {
 	want = append(want, sx.Obs{Kind: 'i', I: final})
 	// recorded findings (each names the exact cells it covers)
 	known, id := false, ""
-	outsider := site == 0 || site == 3 || site == 4
+	outsider := site == 0 || site == 3 || site == 4 || (site == 5 && m == 2)
 	switch {
 	case m != 0 && outsider && (kind == 3 || kind == 4):
 		known, id = true, "C07-static-visibility"
